@@ -14,9 +14,12 @@ def _budget(tier, quick_default, thorough_default):
 
 
 def print_known(prop, counters):
-    for k in runner.open_known(prop):
-        seen = counters.get("known." + k["id"], 0)
-        print("KNOWN-FINDING: property=%s %s [%s; observed %d time(s) in this run]" % (prop, k["what"], k["id"], seen))
+    for k in runner.known_findings():
+        if k.get("status", "open") != "open":
+            continue
+        seen = sum(v for kk, v in counters.items() if kk.endswith("known." + k["id"]))
+        if k.get("property") == prop or seen:
+            print("KNOWN-FINDING: property=%s %s [%s; observed %d time(s) in this run]" % (k.get("property"), k["what"], k["id"], seen))
 
 
 def replay_committed(prop, exe, extra=()):
@@ -59,7 +62,8 @@ def generic_run(prop, spec, tier, seed):
         budget = _budget(tier, spec.get("quick_budget", 45), spec.get("thorough_budget", 600)) * share
         kind = part["kind"] + ("" if quick else "-thorough")
         extra = list(part.get("extra", []))
-        known = [k["id"] for k in runner.open_known(prop)]
+        # engines tag violations with the property they belong to, whatever check runs them: pass every open finding
+        known = [k["id"] for k in runner.known_findings() if k.get("status", "open") == "open"]
         if known:
             extra += ["--known", ",".join(known)]
         pname = part.get("name", part["engine"])
@@ -194,6 +198,12 @@ SPECS = {}
 # Semantic history checks run twice: with ASan+UBSan (memory errors join the oracle) and, for throughput, without
 # sanitizers (page faults are ~10 us in this VM and ASan multiplies them; the plain build explores ~3x more cases).
 for _p in ("C01", "C06", "C07", "C13", "C14"):
+    _extra_parts = []
+    if _p == "C13":
+        _extra_parts = [{"name": "crash", "engine": "crash", "flavour": "plain", "kind": "C05", "nt": "C13.nt", "eval_counter": "images", "quick_count": 100000, "thorough_count": 10000000,
+                         "budget_share": 0.3, "seed_offset": 4242,
+                         "rule": "crash images (see C02/C05) with orphan compaction outputs, temporary files or two MANIFESTs, recovered by the real code: once ldb_open has returned the directory must hold only "
+                                 "CURRENT, LOCK, LOG[.old], one MANIFEST, one log and the tables of the reported layout; non-trivial = image with an orphan table or a CURRENT switch in progress"}]
     SPECS[_p] = {
         "level": "exploration", "quick_budget": 50, "thorough_budget": 600, "assumptions": COMMON_ASSUME, "run": generic_run,
         "parts": [
@@ -202,8 +212,12 @@ for _p in ("C01", "C06", "C07", "C13", "C14"):
             {"name": "plain", "engine": "hist", "flavour": "plain", "kind": _p, "nt": _p + ".nt",
              "rule": "same generator and oracles, lcdb built without sanitizers (clang -O1, asserts on) for ~3x the case rate; seeds differ from the asan part",
              "quick_count": 100000, "thorough_count": 10000000, "budget_share": 0.6, "extra": [], "seed_offset": 7777},
-        ],
+        ] + _extra_parts,
     }
+    if _extra_parts:
+        SPECS[_p]["parts"][0]["budget_share"] = 0.3
+        SPECS[_p]["parts"][1]["budget_share"] = 0.4
+        SPECS[_p]["quick_budget"] = 60
 
 CRASH_ASSUME = COMMON_ASSUME + [
     "crash model exactly as stated in C02: per file a prefix of the written bytes no shorter than at its last fsync; directory operations persist in issue order at least up to the last fsync of any file or directory; O_TRUNC of an existing name is a directory operation",
